@@ -47,18 +47,18 @@ monitor(void)
 	for (int i = 0; i < MAXU; i++) {
 		if (!uaio_used[i])
 			continue;
-		CHECK(env_aio_completed(&uaio[i]) <= 1, "user send completes at most once");
+		CHECK(env_aio_completed(&uaio_at(i)) <= 1, "user send completes at most once");
 		if (KDONE(i)) {
 			if (KRESULT(i) == 0) {
-				CHECK(nni_aio_get_msg(&uaio[i]) == NULL, "accepted send: message now owned by the library");
+				CHECK(nni_aio_get_msg(&uaio_at(i)) == NULL, "accepted send: message now owned by the library");
 				if (!accepted[i])
 					accepted[i] = ++accept_seq;
 			} else {
-				CHECK(nni_aio_get_msg(&uaio[i]) == umsg[i], "failed send leaves the message with the caller");
+				CHECK(nni_aio_get_msg(&uaio_at(i)) == umsg[i], "failed send leaves the message with the caller");
 				CHECK(!accepted[i], "a send reports one final result");
 			}
 		} else {
-			CHECK(nni_aio_get_msg(&uaio[i]) == umsg[i], "pending send still holds its message");
+			CHECK(nni_aio_get_msg(&uaio_at(i)) == umsg[i], "pending send still holds its message");
 		}
 		/* conservation: an accepted message is in exactly one place */
 		if (accepted[i] && !sock_closed) {
@@ -107,9 +107,9 @@ ev_send(int i, int blocking)
 	kuaio_prepare(i, blocking);
 	umsg[i]    = kmsg(2);
 	umsg_id[i] = umsg[i]->id;
-	nni_aio_set_msg(&uaio[i], umsg[i]);
-	env_aio_submit(&uaio[i]);
-	push0_sock_send(&sock, &uaio[i]);
+	nni_aio_set_msg(&uaio_at(i), umsg[i]);
+	env_aio_submit(&uaio_at(i));
+	push0_sock_send(&sock, &uaio_at(i));
 	if (can) {
 		CHECK(KDONE(i) && KRESULT(i) == 0, "send is accepted at once when a peer is ready or the buffer has room");
 		WITNESS("send accepted");
@@ -176,7 +176,7 @@ ev_cancel(int i)
 		return;
 	int was_pending = !KDONE(i);
 	(void) KRESULT(i);
-	nni_aio_abort(&uaio[i], NNG_ECANCELED);
+	nni_aio_abort(&uaio_at(i), NNG_ECANCELED);
 	kquiesce();
 	if (was_pending) {
 		CHECK(KDONE(i) && KRESULT(i) == NNG_ECANCELED, "cancelling a blocked send completes it with ECANCELED");
@@ -230,8 +230,8 @@ ev_close(void)
 			CHECK(KDONE(i), "socket close completes every pending operation");
 			if (KRESULT(i) != 0) {
 				/* failed: caller frees */
-				nni_msg_free(nni_aio_get_msg(&uaio[i]));
-				nni_aio_set_msg(&uaio[i], NULL);
+				nni_msg_free(nni_aio_get_msg(&uaio_at(i)));
+				nni_aio_set_msg(&uaio_at(i), NULL);
 			}
 		}
 	push0_sock_fini(&sock);
